@@ -66,7 +66,8 @@ void sc_vol(Tape& t, int variant, Emit& e) {
 		std::string nm = volgen::gen_name(t, 12);
 		// half of the later names extend an earlier one (possibly in another letter case): prefix-related names are where a sort
 		// that is not a strict weak order, or not total on them, lets the listing order leak into the archive
-		if (i && t.flag()) { nm = volgen::case_variant(fs[t.below(fs.size())].first, t.u8()) + t.pick<std::string>({".bak", "x", "_", ".txt", "0", " "}); }
+		if (i && t.flag()) { nm = volgen::case_variant(fs[t.below(fs.size())].first, t.u8()) + t.pick<std::string>({".bak", "x", "_", ".txt", "0", " ", "\xFF", "\xFFq", "\xFE", "\x80z"}); }
+		else if (t.below(8) == 0 && !nm.empty()) nm[t.below(nm.size())] = char(t.pick<uint8_t>({0xFF, 0xFF, 0xFE, 0x80, 0xE9}));   // bytes above 0x7F, 0xFF (-1 as a signed char) in particular, at the place where two names first differ
 		for (auto& f : fs) if (refvol::ieq(f.first, nm)) nm += char('0' + i);
 		fs.push_back({nm, t.expand(t.below(200))});
 	}
@@ -92,10 +93,17 @@ void sc_vol(Tape& t, int variant, Emit& e) {
 	  } catch (const std::exception&) { e.text("foreign", "refused"); }
 	  remove(fp.c_str()); }
 }
+// rewrites the 'fmt ' chunk of a WAV to a shorter body (the 14-byte WAVEFORMAT of non-PCM files, or less): a reader that fetches a fixed 16 or 18
+// bytes then takes the rest from whatever follows in the FILE - never from its own memory
+void shorten_fmt(std::vector<uint8_t>& v, unsigned newLen) {
+	size_t at = 12;
+	while (at + 8 <= v.size()) { uint32_t len = refvol::get32(v, at + 4); if (memcmp(&v[at], "fmt ", 4) == 0) { if (newLen >= len) return; v.erase(v.begin() + at + 8 + newLen, v.begin() + at + 8 + len); for (int j = 0; j < 4; ++j) v[at + 4 + j] = uint8_t(newLen >> (8 * j)); uint32_t riff = uint32_t(v.size() - 8); for (int j = 0; j < 4; ++j) v[4 + j] = uint8_t(riff >> (8 * j)); return; } at += 8 + len + (len & 1); }
+}
 void sc_clm(Tape& t, int variant, Emit& e) {
 	volgen::root();
 	refclm::WaveFormat f{t.u16(), t.u16(), t.u32(), t.u32(), t.u16(), t.u16()};
 	unsigned n = unsigned(t.below(5));
+	unsigned shortFmt = t.below(6) == 0 ? 1 + t.pick<unsigned>({14, 14, 14, 12, 8, 2, 0}) : 0;   // 0 = ordinary files; else 1 + the body length of every file's 'fmt ' chunk
 	std::vector<std::string> names, paths;
 	volgen::mkdirs("%in/"); volgen::mkdirs("%o/");
 	for (unsigned i = 0; i < n; ++i) {
@@ -104,10 +112,15 @@ void sc_clm(Tape& t, int variant, Emit& e) {
 		refclm::WavSpec w; w.fmt = f; w.fmt18 = t.flag(); w.data = t.expand(t.below(120));
 		if (t.flag()) { refclm::Chunk c; memcpy(c.tag, "LIST", 5); c.body = t.bytes(2 * t.below(5)); w.afterData.push_back(c); }
 		if (t.flag()) { refclm::Chunk c; memcpy(c.tag, "fact", 5); c.body = {1, 2, 3, 4}; w.beforeFmt.push_back(c); }
-		write_file("%in/" + nm + ".wav", refclm::build_wav(w)); names.push_back(nm); paths.push_back(variant ? (i % 2 ? "%in//" : "./%in/") + nm + ".wav" : "%in/" + nm + ".wav");
+		std::vector<uint8_t> wavBytes = refclm::build_wav(w);
+		if (shortFmt) shorten_fmt(wavBytes, shortFmt - 1);
+		write_file("%in/" + nm + ".wav", wavBytes); names.push_back(nm); paths.push_back(variant ? (i % 2 ? "%in//" : "./%in/") + nm + ".wav" : "%in/" + nm + ".wav");
 	}
 	if (variant) std::reverse(paths.begin(), paths.end());
 	std::string out = "%o/c.clm"; remove(out.c_str());
+	if (shortFmt) {   // whether such a set is packed or refused is the library's business; the answer and the bytes must not depend on memory contents
+		try { Archive::ClmFile::CreateArchive(out, paths); } catch (const std::exception&) { e.text("clm.short_fmt", "refused"); for (auto& nm : names) remove(("%in/" + nm + ".wav").c_str()); remove(out.c_str()); return; }
+	} else
 	Archive::ClmFile::CreateArchive(out, paths);
 	e.blob("clm.bytes", slurp(out)); e.headerFromLocal = true; e.container = n > 0;
 	Archive::ClmFile c(out);
